@@ -882,7 +882,9 @@ func (d *refreshDebouncer) stop() {
 	}
 	d.stopped = true
 	d.mu.Unlock()
-	d.quit <- struct{}{} // sync with flusher
+	// Wake the flusher without waiting for it: whichever select case it takes next (a queued
+	// refreshNow, an expired timer or quit) it sees stopped and returns. Sending on quit here
+	// would block forever if the flusher took another case and returned without receiving.
 	close(d.quit)
 }
 
